@@ -574,6 +574,11 @@ func (viso *VirtualISO) writeFSStructures(gameCode string) error {
 			EndSector:   viso.volumeSizeSectors - 1,
 		}}, sectorSize)
 
+		// game code (i.e. BCES00104) split to 4-symbols prefix and number, result must fit to 0x20 bytes with separator
+		if len(gameCode) <= 4 || len(gameCode) >= 0x20 {
+			return fmt.Errorf("unexpected TITLE_ID %q", gameCode)
+		}
+
 		infoSector := discInfoSector{
 			ConsoleID: consoleID,
 			ProductID: gameCode[:4] + "-" + gameCode[4:], // i.e. BCES-00104
